@@ -55,6 +55,7 @@ func (d *PathDecoder) bodySchemaCandidates(ctx context.Context, body *hclsyntax.
 				continue
 			}
 			if uint(count) >= d.maxCandidates {
+				sort.Sort(candidates)
 				return candidates
 			}
 
@@ -63,6 +64,7 @@ func (d *PathDecoder) bodySchemaCandidates(ctx context.Context, body *hclsyntax.
 		}
 	} else if attr := schema.AnyAttribute; attr != nil && len(prefix) == 0 {
 		if uint(count) >= d.maxCandidates {
+			sort.Sort(candidates)
 			return candidates
 		}
 
@@ -95,6 +97,7 @@ func (d *PathDecoder) bodySchemaCandidates(ctx context.Context, body *hclsyntax.
 			continue
 		}
 		if uint(count) >= d.maxCandidates {
+			sort.Sort(candidates)
 			return candidates
 		}
 
